@@ -6,6 +6,9 @@
 #ifndef PV_MACLEN
 #define PV_MACLEN 3      /* oracle MAC / signature length produced by the sign side            */
 #endif
+#ifndef PV_STRMAX
+#define PV_STRMAX 16     /* capacity of the sign-side copy of the signing input                */
+#endif
 #ifndef PV_SIGMAX
 #define PV_SIGMAX 12     /* capacity of the verify-side signature monitor                      */
 #endif
@@ -26,6 +29,7 @@ extern const jwk_item_t *pv_s_key;
 extern jwt_alg_t pv_s_alg;
 extern const char *pv_s_str;
 extern unsigned pv_s_len;
+extern char pv_s_copy[PV_STRMAX];     /* copy of the signing input (the buffer itself is released) */
 extern unsigned char pv_s_out[PV_MACLEN];   /* bytes the sign oracle produced */
 extern unsigned pv_s_outlen;
 extern int pv_s_ok;                   /* the last sign call succeeded */
